@@ -349,6 +349,26 @@ func (w *World) lookup(g uint64) *Task {
 	return nil
 }
 
+// wasTask reports whether goroutine g is or was a task of this run. (For the decision whether a goroutine started by g
+// is adopted a task that has already finished counts as well: whether the parent gets to finish before its child
+// executes its first statement is up to the Go runtime and must not decide anything.)
+//
+//go:norace
+func (w *World) wasTask(g uint64) bool { return w.anyTask(g) != nil }
+
+//go:norace
+func (w *World) anyTask(g uint64) *Task {
+	hideBegin()
+	defer hideEnd()
+	n := int(ldi32(&w.ntasks))
+	for i := 0; i < n; i++ {
+		if t := w.tasks[i]; t != nil && t.goid == g {
+			return t
+		}
+	}
+	return nil
+}
+
 //go:norace
 func (w *World) pointIndex(point string) int {
 	n := int(ldi32(&w.npoints))
@@ -493,7 +513,7 @@ func (w *World) adoptSpawned(point string, g uint64) {
 	// Only goroutines started by a task (or by an adopted goroutine): what the scenario's own set-up code starts while no
 	// task is running it keeps the eager behaviour - when exactly such a goroutine first runs relative to the set-up
 	// code is up to the Go scheduler, so nothing may depend on it.
-	if n := int(ldi32(&w.ntasks)); n == 0 || n > maxTasks-24 || w.lookup(parentGoid()) == nil {
+	if n := int(ldi32(&w.ntasks)); n == 0 || n > maxTasks-24 || !w.wasTask(parentGoid()) {
 		return
 	}
 	pi := w.pointIndex(point)
@@ -505,7 +525,7 @@ func (w *World) adoptSpawned(point string, g uint64) {
 	t := &Task{W: w, Name: fmt.Sprintf("%s#%d", strings.TrimPrefix(point, "auto:"), k), goid: g, wake: make(chan struct{}), done: make(chan struct{}), daemon: true, spawned: true}
 	sti32(&t.state, stRunning)
 	w.addTask(t)
-	if p := w.lookup(parentGoid()); p != nil {
+	if p := w.anyTask(parentGoid()); p != nil {
 		t.prio = p.prio // priority policy: a goroutine continues the activity of the one that started it
 	}
 	t.park("start", true)
